@@ -185,6 +185,15 @@ def replay(w):
     if nt.get('kind') == 'cache':
         return _cache_replay(nt)
     K = int(nt.get('K', 3))
+    if nt.get('kind') == 'pool_size':
+        # the witness's own pool size and environment switch against the single-process reference
+        try:
+            ref = _run(K, None, 1)
+            d = _same(ref, _run(K, nt.get('env'), int(nt.get('nproc', 2))))
+        except Exception as exc:
+            return {'reproduced': True, 'signature': 'run-raises', 'observed': {'raised': repr(exc)}}
+        return {'reproduced': d is not None, 'signature': 'result-depends-on-num-processors' if d else None,
+                'observed': {'difference': d, 'K': K, 'num_processors': nt.get('nproc'), 'env': nt.get('env')}}
     try:
         ref = _run(K, None, 1)
         # slow down tasks so that later-submitted clusters finish first
